@@ -73,10 +73,20 @@ def _reject_json_constant(constant):
     raise ValueError('%s is not a valid JSON value' % constant)
 
 
+def _finite_float(literal):
+    # A literal such as -1e400 overflows to an infinity, which no field can
+    # hold either.
+    value = float(literal)
+    if value in (float('inf'), float('-inf')):
+        raise ValueError('%s is out of range' % literal)
+    return value
+
+
 def extract_json(body, schema):
     """Extract JSON from a body and validate with the provided schema."""
     try:
-        data = jsonutils.loads(body, parse_constant=_reject_json_constant)
+        data = jsonutils.loads(body, parse_constant=_reject_json_constant,
+                               parse_float=_finite_float)
         # A string holding a lone surrogate (e.g. the escape "\\ud800") decodes
         # but cannot be encoded again, hence neither stored nor echoed.
         # UnicodeEncodeError is a ValueError.
